@@ -544,3 +544,103 @@ package dt
 //@   requires setpre(s)
 //@   modifies s.hash, s.list.root
 //@   ensures[C13,C18] locked: smutex(s.mtx) != nil ==> closureof(result, "(Producer).WithLock$1") && closurevar(result, "mtx") == smutex(s.mtx)
+
+// ---------------------------------------------------------------------------
+// dt.Stack (C16): singly linked, head = top; a not-ok sentinel item owned by the
+// stack terminates the chain. Ghost view: s.items = the members top to bottom
+// (sentinel excluded), s.bottom = the sentinel, it.pos = index of a member.
+// ---------------------------------------------------------------------------
+//@ ghost Stack.items seq
+//@ ghostinit Stack.items(s) = []
+//@ ghost Stack.bottom ref
+//@ ghost Item.pos int
+
+//@ pred swf(s *Stack) = s != nil && s.head != nil && s.bottom != nil && allocated(s.bottom) && cast(s.bottom, "*Item").stack == s && !cast(s.bottom, "*Item").ok && cast(s.bottom, "*Item").next == nil
+//@ |  && len(s.items) >= 0 && s.length == len(s.items)
+//@ |  && (len(s.items) == 0 ==> s.head == s.bottom)
+//@ |  && (len(s.items) > 0 ==> s.head == s.items[0] && cast(s.items[len(s.items) - 1], "*Item").next == s.bottom)
+//@ |  && (forall i: int :: 0 <= i && i < len(s.items) ==> allocated(s.items[i]) && s.items[i] != s.bottom && cast(s.items[i], "*Item").stack == s && cast(s.items[i], "*Item").ok && cast(s.items[i], "*Item").pos == i)
+//@ |  && (forall i: int :: 0 <= i && i < len(s.items) - 1 ==> cast(s.items[i], "*Item").next == s.items[i + 1])
+//@ |  && (forall e: Item :: e.stack == s && e != s.bottom ==> 0 <= e.pos && e.pos < len(s.items) && s.items[e.pos] == e)
+//@ pred suninit(s *Stack) = s.head == nil && s.length == 0 && len(s.items) == 0 && (forall e: Item :: e.stack != s)
+//@ pred slwf(s *Stack) = s != nil && (s.head == nil ? suninit(s) : swf(s))
+//@ pred smember(s *Stack, e *Item) = e != nil && e != s.bottom && e.stack == s
+
+//@ func (*Stack).lazyInit
+//@   props C16
+//@   requires s == nil || slwf(s)
+//@   panics when s == nil
+//@   modifies s.head, s.length, s.bottom
+//@   ghostset s.bottom = old(s.head) == nil ? s.head : old(s.bottom)
+//@   ensures swf(s) && s.items == old(s.items) && (old(s.head) != nil ==> s.head == old(s.head) && s.bottom == old(s.bottom))
+
+//@ func (*Stack).Len
+//@   props C16
+//@   requires slwf(s)
+//@   ensures result == len(s.items)
+
+//@ func (*Stack).Head
+//@   props C16
+//@   requires s == nil || slwf(s)
+//@   panics when s == nil
+//@   modifies s.head, s.length, s.bottom
+//@   ensures swf(s) && s.items == old(s.items) && result == (len(s.items) > 0 ? s.items[0] : s.bottom)
+
+// Item.Append pushes n on top of the receiver's stack (wherever the receiver
+// stands in it); nil / not-ok / already attached items and a detached receiver
+// are rejected: the receiver is returned and nothing changes.
+//@ func (*Item).Append
+//@   props C16
+//@   requires it != nil && allocated(it) && (it.stack != nil ==> slwf(it.stack)) && (n != nil ==> allocated(n) && n != it && (n.stack != nil ==> slwf(n.stack)))
+//@   modifies it.stack.head, it.stack.length, it.stack.bottom, n.next, n.stack, it.stack.items, Item.pos
+//@   ghostset it.stack.bottom = old(it.stack) != nil && old(it.stack.head) == nil ? it.stack.head : old(it.stack.bottom)
+//@   ghostset it.stack.items = (n == nil || old(it.stack) == nil || old(n.stack) != nil || !old(n.ok)) ? old(it.stack.items) : insert(old(it.stack.items), 0, n)
+//@   ghostall Item.pos(x) = (n == nil || old(it.stack) == nil || old(n.stack) != nil || !old(n.ok)) ? old(x.pos) : (x == n ? 0 : (old(x.stack) == old(it.stack) && x != old(it.stack.bottom) ? old(x.pos) + 1 : old(x.pos)))
+//@   ensures rejected: (n == nil || old(it.stack) == nil || old(n.stack) != nil || !old(n.ok)) ==> result == it && (n != nil ==> n.stack == old(n.stack) && n.next == old(n.next)) && (old(it.stack) != nil && old(it.stack.head) != nil ==> swf(it.stack) && it.stack.items == old(it.stack.items))
+//@   ensures accepted: !(n == nil || old(it.stack) == nil || old(n.stack) != nil || !old(n.ok)) ==> result == n && swf(it.stack) && n.stack == it.stack && it.stack == old(it.stack) && it.stack.items == insert(old(it.stack.items), 0, n)
+
+//@ func (*Stack).Push
+//@   props C16
+//@   requires s == nil || slwf(s)
+//@   panics when s == nil
+//@   modifies s.head, s.length, s.bottom, Item.next, Item.stack, s.items, Item.pos
+//@   ensures swf(s) && len(s.items) == len(old(s.items)) + 1 && s.items[1:] == old(s.items) && fresh(s.items[0]) && cast(s.items[0], "*Item").value == it
+
+// Pop: the top member leaves the stack (detached: stack == nil); on an empty
+// stack the sentinel is returned (not ok) and the stack stays usable.
+//@ func (*Stack).Pop
+//@   props C16
+//@   requires s != nil && slwf(s)
+//@   modifies s.head, s.length, s.bottom, Item.stack, s.items, Item.pos
+//@   ghostset s.bottom = old(s.head) == nil ? s.head : old(s.bottom)
+//@   ghostset s.items = len(old(s.items)) > 0 ? old(s.items)[1:] : old(s.items)
+//@   ghostall Item.pos(x) = len(old(s.items)) > 0 && old(x.stack) == s && x != old(s.bottom) ? old(x.pos) - 1 : old(x.pos)
+//@   ensures swf(s)
+//@   ensures nonempty: len(old(s.items)) > 0 ==> result == old(s.items)[0] && result.stack == nil && s.items == old(s.items)[1:]
+//@   ensures empty: len(old(s.items)) == 0 ==> !result.ok && len(s.items) == 0 && result == s.bottom
+
+// Item.Remove: a member is unlinked (the stack's view loses exactly that
+// position, Len follows); detached / not-ok items are refused.
+//@ func (*Item).Remove
+//@   props C16
+//@   requires it == nil || (allocated(it) && (it.stack != nil ==> swf(it.stack) && (it == it.stack.bottom || smember(it.stack, it))))
+//@   modifies it.stack.head, it.stack.length, it.stack, Item.next, it.stack.items, Item.pos
+//@   ghostset old(it.stack).items = (it != nil && old(it.stack) != nil && old(it.ok)) ? remove(old(it.stack.items), old(it.pos)) : old(it.stack.items)
+//@   ghostall Item.pos(x) = (it != nil && old(it.stack) != nil && old(it.ok) && old(x.stack) == old(it.stack) && x != old(it.stack.bottom) && old(x.pos) > old(it.pos)) ? old(x.pos) - 1 : old(x.pos)
+//@   ensures refused: (it == nil || old(it.stack) == nil || !old(it.ok)) ==> result == false && (it != nil && old(it.stack) != nil ==> swf(it.stack) && it.stack.items == old(it.stack.items))
+//@   ensures removed: it != nil && old(it.stack) != nil && old(it.ok) ==> result == true && it.stack == nil && swf(old(it.stack)) && old(it.stack).items == remove(old(it.stack.items), old(it.pos))
+//@   loop 1 invariant it != nil && it.stack != nil && it.stack == old(it.stack) && swf(it.stack) && it.stack.items == old(it.stack.items) && smember(it.stack, it) && next != nil
+//@   loop 1 invariant (next == it.stack.bottom && it.pos >= len(it.stack.items)) || (smember(it.stack, next) && next.pos <= it.pos)
+//@   loop 1 decreases (next == it.stack.bottom ? 0 : len(it.stack.items) - next.pos)
+
+//@ func (*Item).In
+//@   props C16
+//@   requires it != nil
+//@   ensures result == (it.stack == s)
+
+//@ func (*Item).Set
+//@   props C16
+//@   requires it != nil && allocated(it)
+//@   modifies it.ok, it.value
+//@   ensures sentinel: (old(it.stack) != nil && old(it.next) == nil) ==> result == false && it.ok == old(it.ok)
+//@   ensures accepted: !(old(it.stack) != nil && old(it.next) == nil) ==> result == true && it.ok && it.value == v
